@@ -187,7 +187,7 @@ func verifK_NoFCReceiver() {
 	})
 	verifDrain()
 	// tearing the stream down releases an accept that is parked on the full queue (and never deadlocks with it)
-	verifAssert(accDone && closeDone, "C04+C15.k-nofc-teardown-releases-a-blocked-accept")
+	verifAssert(accDone && closeDone, "C04+C09+C15.k-nofc-teardown-releases-a-blocked-accept")
 	// (no send on a closed channel, no double close: panic obligations; nobody left hanging: deadlock obligation)
 	for i, id := range got {
 		verifAssert(id == i+1, "C01+C11.k-nofc-fifo-prefix")
@@ -280,9 +280,8 @@ func verifK_StreamIDs() {
 func verifK_FinishClient() {
 	car := vNewCliCarrier(context.Background())
 	c := vNewCliChannel(car, 0, false)
-	var tlrT metadata.MD
-	_ = tlrT
-	st, err := c.newStream(context.Background(), true, true, "svc/m")
+	var hdrT metadata.MD
+	st, err := c.newStream(context.Background(), true, true, "svc/m", grpc.Header(&hdrT))
 	verifAssume(err == nil)
 	code := int32(0)
 	if verifBool("fails") {
@@ -294,12 +293,19 @@ func verifK_FinishClient() {
 	var trailers metadata.MD
 	readerDone := false
 	verifGo("recv-loop", func() {
+		st.acceptServerFrame(&tunnelpb.ServerToClient_ResponseHeaders{ResponseHeaders: &tunnelpb.Metadata{
+			Md: map[string]*tunnelpb.Metadata_Values{"hk": {Val: []string{"h1"}}}}})
 		st.acceptServerFrame(&tunnelpb.ServerToClient_ResponseMessage{ResponseMessage: &tunnelpb.MessageData{Size: uint32(len(w)), Data: w}})
 		st.acceptServerFrame(&tunnelpb.ServerToClient_CloseStream{CloseStream: &tunnelpb.CloseStream{
 			Status:           &spb.Status{Code: code, Message: "m"},
 			ResponseTrailers: &tunnelpb.Metadata{Md: map[string]*tunnelpb.Metadata_Values{"tk": {Val: []string{"t1"}}}}}})
 	})
 	verifGo("reader", func() {
+		h, herr := st.Header()
+		if herr == nil && len(h["hk"]) == 1 {
+			// the grpc.Header target may be read once Header() has returned
+			verifAssert(len(hdrT["hk"]) == 1, "C02+C15.k-header-target-set-before-headers-are-signalled")
+		}
 		for {
 			m := &wrapperspb.BytesValue{}
 			if e := st.RecvMsg(m); e != nil {
